@@ -158,8 +158,17 @@ class Prop(BaseProp):
                 res.count("symlinked_inputs")
             marker = os.path.join(sb, "continued.txt")
             drv = os.path.join(sb, "driver.cmake")
+            # history: in some runs the same input was already documented into the same output by an earlier call of the
+            # same cmake process, with OTHER extra arguments; every call is a run of the executable of its own
+            extra0 = None
+            if kind in ("file", "flat", "nested") and rng.random() < 0.3:
+                extra0 = rng.choice([e for e in pool if e != extra])
+                res.count("second_call_same_input_and_output")
+            first_call = "" if extra0 is None else \
+                f'cminx_gen_rst({q(target)} {q(out1 if not rel_out else "rel_out_cmake")} {" ".join(q(e) for e in extra0)})\n'
             with open(drv, "w") as f:
                 f.write(f'set(CMINX_EXECUTABLE {q(shim)})\ninclude({q(os.path.join(repo_root(), "cmake", "cminx.cmake"))})\n'
+                        + first_call +
                         f'cminx_gen_rst({q(target)} {q(out1 if not rel_out else "rel_out_cmake")} {" ".join(q(e) for e in extra)})\n'
                         f'file(WRITE {q(marker)} "continued")\n')
             preexisting = rng.random() < 0.4
@@ -170,7 +179,7 @@ class Prop(BaseProp):
                     with open(os.path.join(o_, "left_over_from_earlier_call.txt"), "w") as f:
                         f.write("x")
                 res.count("output_directory_existed_before")
-            res.sig = sig_hash([kind, extra, tree.shape(), preexisting])
+            res.sig = sig_hash([kind, extra, tree.shape(), preexisting, extra0])
             res.nontrivial = kind in ("flat", "nested") or bool(extra)
             p = subprocess.run(["cmake", "-P", drv], capture_output=True, env=env, cwd=run_cwd, timeout=300)
             res.count("cmake_runs")
@@ -184,14 +193,21 @@ class Prop(BaseProp):
                     if rec:
                         recs.append(rec.split("\0")[:-1])
             want = [target] + (["-r"] if os.path.isdir(target) else []) + extra + ["-o", out1_arg]
+            want_all = [want]
+            if extra0 is not None:
+                want0 = [target] + (["-r"] if os.path.isdir(target) else []) + extra0 + ["-o", out1_arg]
+                want_all = [want0, want]
+                runner.run_cli(want0[:-1] + [out2_arg], cwd=run_cwd, home=home)        # the same history on the command line
             res.count("argv_records_checked")
-            if recs != [want]:
+            if recs != want_all:
                 cls = "argv"
                 if recs and ("-r" in recs[0]) != ("-r" in want):
                     cls = "argv:recursive-flag"
                 elif not recs:
                     cls = "argv:executable-not-invoked"
-                res.violate(cls, f"executable received {recs}, expected {[want]}", wit)
+                if extra0 is not None and len(recs) < 2:
+                    cls = "argv:second-call-did-not-run-the-executable"
+                res.violate(cls, f"executable received {recs}, expected {want_all}", wit)
             # (2) differential against the direct command line
             rc, so, se = runner.run_cli(want[:-1] + [out2_arg], cwd=run_cwd, home=home)
             if rc != 0:
